@@ -7,6 +7,7 @@ mod gen;
 mod exec;
 mod c01;
 mod c18;
+mod c16;
 
 use common::Case;
 use std::fs;
@@ -17,6 +18,7 @@ fn header(prop: &str) -> &'static str {
         "C17" => "From TSG Require Import Model.ContainerOps.\n",
         "C01" | "LAZY" => "From TSG Require Import Model.Run.\n",
         "C18" => "From TSG Require Import Model.ParseErr.\n",
+        "C16" => "From TSG Require Import Model.Globals.\n",
         _ => "",
     }
 }
@@ -59,6 +61,7 @@ fn main() {
                 "C01" => c01::gen(&mut rng, n),
                 "LAZY" => c01::gen_mode(&mut rng, n, true),
                 "C18" => c18::gen(&mut rng, n),
+                "C16" => c16::gen(&mut rng, n),
                 _ => { eprintln!("unknown property {}", prop); std::process::exit(2) }
             };
             write_cases(&prop, &cases, shards, &out);
@@ -71,6 +74,7 @@ fn main() {
                 "C01" => c01::replay(&j["case"]),
                 "LAZY" => c01::replay_mode(&j["case"], true),
                 "C18" => c18::replay(&j["case"]),
+                "C16" => c16::replay(&j["case"]),
                 _ => { eprintln!("unknown property {}", prop); std::process::exit(2) }
             };
             write_cases(&prop, &[case], 1, &out);
